@@ -8,7 +8,7 @@ MC_DomH5 == {9}
 MC_DomHDKG == {4}
 MC_DomHR == {1}
 MC_DomHID == {1}
-MC_Probes == {"dealer","dkg1"}
+MC_Probes == {"dealer","dkg1","rdkg1"}
 MC_Vals == {0,1,4,10}
 MC_NZVals == {7}
 MC_MaxZeros == 1
